@@ -72,7 +72,8 @@ def h2_source(facts, cfg):
     p = facts.port(mc['port'])
     claim = [e for e in p.events if e.name == mc['claim']][0]
     release = [e for e in p.events if e.name == mc['release']][0]
-    other = [e for e in p.ins() if e.name not in (mc['claim'], mc['release']) and e.reply[0] == 'void'][0]
+    others_ = [e for e in p.ins() if e.name not in (mc['claim'], mc['release']) and e.reply[0] == 'void']
+    other = others_[0] if others_ else None        # (a multi-client interface may have no other in-event at all)
     out_ev = p.outs()[0]
     sns = lab.support_ns(cfg)
     shell_t = '::' + '::'.join(list(facts.scope) + [facts.base + cfg.get('suffix', 'Shell')])
@@ -161,7 +162,7 @@ static void client(Fixture* fx, int c, int cycles, int use) {
     if (fx->handled < h0 + 1) fx->client_violation[c] += "claim returned before the dispatcher ran it; ";
     if (r == %(grant)s) {
       fx->st[c] = HOLDING; fx->ep[c]++;
-      if (use & 1) { %(other_decl)s port.port.in.%(other)s(%(other_call)s); }
+      %(use_other)s
       if (use & 2) { std::atomic<bool> seen{false}; int before = fx->got[c]; (*fx->pump)([fx, &seen] { fx->raise(); seen = true; }); sched::wait_until([&seen] { return seen.load(); }, "await-out-event");
         if (fx->got[c] < before + 1) fx->client_violation[c] += std::string("client ") + CL[c] + " holds the claim and asked for an out-event but did not receive it; "; }
       sched::point("holding");
@@ -229,7 +230,8 @@ int main(int argc, char** argv) {
         'user_facilities': 'dzn::pump user_pump; dzn::runtime user_rt;' if cfg.get('fac') == 'import' else '',
         'publish_facilities': 'loc.set(user_pump).set(user_rt);' if cfg.get('fac') == 'import' else '',
         'find_pump': 'pump = &user_pump;' if cfg.get('fac') == 'import' else 'pump = &sh->Locator().get<dzn::pump>();',
-        'claim': claim.name, 'release': release.name, 'other': other.name, 'out': out_ev.name,
+        'claim': claim.name, 'release': release.name, 'out': out_ev.name,
+        'use_other': (f'if (use & 1) {{ {decl(other)} port.port.in.{other.name}({call(other)}); }}' if other else '(void)use;'),
         'claim_sig': sig(claim), 'release_sig': sig(release),
         'claim_outs': ' '.join(f'{f[0]} = {f[1]}(7);' for f in claim.formals if f[2] != 'in'),
         'release_outs': ' '.join(f'{f[0]} = {f[1]}(8);' for f in release.formals if f[2] != 'in'),
@@ -246,7 +248,6 @@ int main(int argc, char** argv) {
         'out_decl': decl(out_ev), 'out_call': call(out_ev),
         'claim_decl': decl(claim), 'claim_call': call(claim),
         'release_decl': decl(release), 'release_call': call(release),
-        'other_decl': decl(other), 'other_call': call(other),
     }
 
 
